@@ -190,6 +190,10 @@ class CavityQEDCompiler(GateCompiler):
             * (1.0 / self.Delta[q1] + 1.0 / self.Delta[q2])
             / 2.0
         )
+        if J < 0:
+            # A negative exchange coupling rotates in the opposite direction:
+            # the rotation by ``area`` is reached after ``1 - area`` periods.
+            area = 1 - area
         # The couplings and detunings are held constant during the swap,
         # only its duration is computed here: always a rectangular pulse.
         coeff, tlist = self.generate_pulse_shape(
@@ -225,13 +229,7 @@ class CavityQEDCompiler(GateCompiler):
         -------
         A list of :obj:`.Instruction`, including the compiled pulse
         information for this gate.
-
-        Notes
-        -----
-        This version of sqrtiswap_compiler has very low fidelity, please use
-        iswap
         """
-        # FIXME This decomposition has poor behaviour.
         return self._swap_compiler(
             gate, area=1 / 4, correction_angle=-np.pi / 4, args=args
         )
